@@ -214,7 +214,7 @@ def rewrite_for_loops(lines, counts):
             i += 1
             continue
         ind, pat, it = mo.group(1), mo.group(2), mo.group(3).strip()
-        if re.match(r'^[^.]*\.\.[^.]*$', it) and '..' in it and '.iter' not in it and 'new(' not in it:
+        if '..' in it:
             out.append((txt, no))   # a range
             i += 1
             continue
